@@ -92,6 +92,11 @@ def acceptInto (s : St) (srv cli : Nat) (ckind : HKind) : St × Bool :=
   let s := if nQueued s srv > 0 then s.run [.transfer (.handle srv .q) (.handle srv .acc)] else s
   (s, ok)
 
+/-- uv_stdio_container_t: UV_IGNORE, UV_CREATE_PIPE into pipe handle h, UV_INHERIT_FD of user descriptor f,
+    UV_INHERIT_STREAM of stream handle h -/
+inductive Cont | ignore | pipe (h : Nat) | fd (f : Nat) | stream (h : Nat)
+  deriving Repr
+
 inductive Op
   | loopInit | loopClose
   | tcpInit (af : Bool) | pipeInit (ipc : Bool) | udpInit (af : Bool)
@@ -105,7 +110,7 @@ inductive Op
   | uvPipe | uvSocketpair
   | fsOpen (variant : String) | fsMkstemp | fsClose (f : Nat) | fsCopyfile (ok : Bool)
   | ipcSend (f h : Nat) (kinds : List HKind)
-  | spawn (ok : Bool) (cs : List (Option (Sum Nat Nat)))   -- per container: none = ignore/absent, inl h = create pipe, inr f = inherit fd
+  | spawn (ok : Bool) (cs : List Cont)
   | end_
   deriving Repr
 
@@ -182,22 +187,28 @@ def runFuel (s : St) : Nat := (s.hs.map (fun h => h.pending + h.inflight.length)
 
 /-- uv_spawn, parent side (process.c:986-1110 and 935-980).  `cs`: containers; index 1 is always an
     inherited descriptor of the harness (no ledger effect). -/
-def spawnOp (s : St) (inj : Inj) (ok : Bool) (cs : List (Option (Sum Nat Nat))) : St :=
+def spawnOp (s : St) (inj : Inj) (ok : Bool) (cs : List Cont) : St :=
   let p := s.hs.length
   let s := s.newH { kind := .proc }
-  let pipes : List (Nat × Nat) :=      -- (container index, handle)
-    (List.range cs.length).filterMap (fun i => match cs[i]? with | some (some (Sum.inl h)) => some (i, h) | _ => none)
-  -- uv__process_init_stdio for each container, in order
-  let rec initStdio (s : St) (done : List (Nat × Nat)) : List (Nat × Nat) → St × Bool
+  let conts : List (Nat × Cont) := (List.range cs.length).map (fun i => (i, cs.getD i .ignore))
+  let pipes : List (Nat × Nat) := conts.filterMap (fun ic => match ic.2 with | .pipe h => some (ic.1, h) | _ => none)
+  -- error: label (process.c:1093-1108): close what was created so far ([0] then [1], container order);
+  -- UV_INHERIT_FD / UV_INHERIT_STREAM slots are skipped
+  let cleanup (s : St) (done : List (Nat × Nat)) : St :=
+    s.run (done.reverse.flatMap (fun (j, _) => [Prim.closeOwner (.temp (2 * j)) false, .closeOwner (.temp (2 * j + 1)) false]))
+  -- uv__process_init_stdio for each container, in order (process.c:188-239)
+  let rec initStdio (s : St) (done : List (Nat × Nat)) : List (Nat × Cont) → St × Bool
     | [] => (s, true)
-    | (i, h) :: rest =>
-      match s.sys inj "socketpair" with
-      | (some _, s) =>
-        -- error: close what was created so far ([0] then [1], container order)
-        (s.run (done.reverse.flatMap (fun (j, _) => [Prim.closeOwner (.temp (2 * j)) false, .closeOwner (.temp (2 * j + 1)) false])), false)
+    | (i, .pipe h) :: rest =>
+      (match s.sys inj "socketpair" with
+      | (some _, s) => (cleanup s done, false)
       | (none, s) =>
-        initStdio (s.run [.create .socketpair .sock (.temp (2 * i)), .create .socketpair .sock (.temp (2 * i + 1))]) ((i, h) :: done) rest
-  match initStdio s [] pipes with
+        initStdio (s.run [.create .socketpair .sock (.temp (2 * i)), .create .socketpair .sock (.temp (2 * i + 1))]) ((i, h) :: done) rest)
+    | (_, .stream h) :: rest =>
+      -- a stream without descriptor: UV_EINVAL
+      if s.has (.handle h .io) then initStdio s done rest else (cleanup s done, false)
+    | _ :: rest => initStdio s done rest
+  match initStdio s [] conts with
   | (s, false) => ret (s.setH p (fun h => { h with st := .closing })) false
   | (s, true) =>
     -- uv__spawn_and_init_child: the exec-error pipe
@@ -415,7 +426,9 @@ def step (s : St) (inj : Inj) (op : Op) : St :=
             | (some _, s) => (false, s)
             | (none, s) => (true, s.run [.create .uvSocket .sock (.handle h .io)])
           if !sockOk then ret s false else
-          ret (bump (s.setH h (fun x => { x with connected := true, readable := true }))) true
+          -- tcp.c:309-310: with a delayed bind error no connect(2) is made at all
+          let s := s.setH h (fun x => { x with connected := true, readable := true })
+          ret (if hh.delayed then s else bump s) true
         | .pipe =>
           let (sockOk, s) := if s.has (.handle h .io) then (true, s) else
             match s.sys inj "socket" with
@@ -474,9 +487,10 @@ def step (s : St) (inj : Inj) (op : Op) : St :=
         ret (if ok then s.setH h (fun x => { x with inflight := x.inflight ++ [kinds] }) else s) ok
     | .spawn ok cs =>
       if cs.any (fun c => match c with
-          | some (.inl h) => ((s.liveH h).map (·.kind)) ≠ some .pipe
-          | some (.inr f) => (findId? s.l.1.led f).isNone
-          | none => false) then bad s
+          | .pipe h => ((s.liveH h).map (·.kind)) ≠ some .pipe
+          | .stream h => !(((s.liveH h).map (fun x => isStream x.kind)).getD false)
+          | .fd f => (findId? s.l.1.led f).isNone
+          | .ignore => false) then bad s
       else spawnOp s inj ok cs
     | _ => bad s
 
